@@ -31,13 +31,13 @@ def deep_equal(seq1: Iterable[Any],
 
     etree_node_types = (EtreeElementNode, CommentNode, ProcessingInstructionNode)
 
-    def etree_deep_equal(e1: ElementProtocol, e2: ElementProtocol) -> bool:
+    def etree_deep_equal(e1: ElementProtocol, e2: ElementProtocol, tails: bool = False) -> bool:
         if cm.ne(e1.tag, e2.tag):
             return False
         elif cm.ne((e1.text or '').strip(), (e2.text or '').strip()):
             return False
-        elif cm.ne((e1.tail or '').strip(), (e2.tail or '').strip()):
-            return False
+        elif tails and cm.ne((e1.tail or '').strip(), (e2.tail or '').strip()):
+            return False  # the tail of the compared nodes is a sibling text node
         elif len(e1) != len(e2) or len(e1.attrib) != len(e2.attrib):
             return False
 
@@ -51,7 +51,7 @@ def deep_equal(seq1: Iterable[Any],
 
         if items1 != items2:
             return False
-        return all(etree_deep_equal(c1, c2) for c1, c2 in zip(e1, e2))
+        return all(etree_deep_equal(c1, c2, tails=True) for c1, c2 in zip(e1, e2))
 
     if collation is None:
         collation = UNICODE_CODEPOINT_COLLATION
